@@ -225,7 +225,7 @@ def cinstr(spec):
 
 COQ_PRELUDE = (
     "From Coq Require Import String.\nFrom Coq Require Import List QArith.\nImport ListNotations.\n"
-    "From QV Require Import Model.Sched.\nOpen Scope string_scope.\n"
+    "From QV Require Import Model.Sched Proofs.SchedCheck.\nOpen Scope string_scope.\n"
     "Definition qq (q : Q) := let r := Qred q in (Qnum r, Zpos (Qden r)).\n"
     "Definition R3 {A} (o : option (A * nat * nat)) := match o with Some (x, _, _) => Some x | None => None end.\n")
 
@@ -272,6 +272,30 @@ def run_model_many(tag, items, comm="commutation_rules", fixed=True, chunk=400):
         if len(vals) != len(part):
             raise Broken("coq-eval:" + tag, f"expected {len(part)} values, got {len(vals)}")
         res += [canon_model(i, v) for (i, _), v in zip(part, vals)]
+    return res
+
+
+
+def is_dyadic(fr, bits=40):
+    d = fr.denominator
+    return d & (d - 1) == 0 and d <= 2 ** bits and abs(fr.numerator) < 2 ** 60
+
+
+def run_checker_many(tag, items, fn, comm="commutation_rules", chunk=400):
+    """items: list of (inp, coq_literal_of_real_output); evaluates `fn comm perm instrs <output>` inside Coq"""
+    files = []
+    for k in range(0, len(items), chunk):
+        body = COQ_PRELUDE + "\n".join(
+            "Eval vm_compute in (%s %s %s %s %s)." % (fn, comm, cbool(i["perm"]), clist([cinstr(x) for x in i["instrs"]]), lit)
+            for i, lit in items[k:k + chunk]) + "\n"
+        files.append((f"{tag}_{k // chunk}", body))
+    outs = coq_eval_many(files) if files else {}
+    res = []
+    for k in range(0, len(items), chunk):
+        vals = parse_evals(outs[f"{tag}_{k // chunk}"])
+        if len(vals) != len(items[k:k + chunk]):
+            raise Broken("coq-eval:" + tag, "wrong number of values")
+        res += vals
     return res
 
 
@@ -445,9 +469,11 @@ def correspond(ctx):
 
     # oracle-only stream: longer lists (set iteration order not tied), continuous durations
     n_long = 0
+    to_check = []
     for _ in range(ctx.n(1200, 6000)):
         inp = gen_input(rng, 14, mode="pulse")
-        if rng.random() < 0.5:
+        continuous = rng.random() < 0.5
+        if continuous:
             for s in inp["instrs"]:
                 x = rng.choice([rng.uniform(0.01, 10.0), rng.uniform(1e-7, 1e-6), rng.uniform(1e5, 1e6)])
                 fr = Fraction(x)
@@ -457,6 +483,8 @@ def correspond(ctx):
         corr.tally("oracle-only<=14")
         corr.count(key_of(inp), nontrivial=nontrivial(inp))
         n_long += 1
+        if not isinstance(res, str) and not continuous and all(is_dyadic(x) for x in res):
+            to_check.append((inp, clist([cq(x) for x in res])))
         if isinstance(res, str):
             corr.oracle_fail(inp, res, "start times", "scheduler raised on a valid instruction list")
             continue
@@ -465,6 +493,13 @@ def correspond(ctx):
         if bad:
             corr.oracle_fail(inp, dict(start_times=[float(x) for x in res], detail=bad[1]), "a valid timetable", bad[0])
     corr.extra["oracle_only_cases"] = n_long
+    # the real output, validated inside Coq by the proved checker (Props/C11.v valid_timetable_sound)
+    verdicts = run_checker_many("c11chk", to_check, "valid_timetable")
+    for (inp, lit), ok in zip(to_check, verdicts):
+        corr.tally("real-output-checked-in-coq")
+        if ok is not True:
+            corr.disagree(inp, lit, ok, "real start times rejected by the proved checker valid_timetable")
+    corr.extra["checked_in_coq"] = len(to_check)
     return corr
 
 
